@@ -69,3 +69,15 @@ M("c05-frame-overwritten", "C05", H, '        frame = "barycentric" if header.ge
 M("c05-machine-id-table", "C05", H, "        return sigproc.machine_ids.get(self.backend, 0)", "        return sigproc.machine_ids.get(self.backend, 0) if self.backend != 'MWAX-RTB' else 31")
 M("c05-signed-char-unsigned", "C05", S, '    "signed": "b",', '    "signed": "B",', "negative 'signed' values no longer parse/encode")
 M("c05-dec-arcsec-clipped", "C05", S, "    ami, ase = divmod(ami, 100)", "    ami, ase = divmod(ami, 100)\n    ase = min(ase, 59.9)", "declination arcseconds >= 59.9 clipped on parse (0.1 arcsec)")
+
+# ---- C06
+M("c06-collapse-offset", "C06", B, "            kernels.extract_tim(data, tim_ar, self.header.nchans, nsamps_r, ii * gulp)", "            kernels.extract_tim(data, tim_ar, self.header.nchans, nsamps_r, ii * nsamps_r)")
+M("c06-dedisp-offset", "C06", B, "                nsamps_r,\n                ii * (gulp - max_delay),\n            )\n        return TimeSeries(", "                nsamps_r,\n                ii * gulp,\n            )\n        return TimeSeries(")
+M("c06-bandpass-divisor", "C06", B, "            num_samples += nsamps_r\n", "            num_samples += gulp\n")
+M("c06-read_chan-offset", "C06", B, "            tim_ar[ii * gulp : (ii + 1) * gulp] = data_2d[:, ichan]", "            tim_ar[ii * nsamps_r : ii * nsamps_r + nsamps_r] = data_2d[:, ichan]")
+M("c06-stats-startflag", "C06", B, '            bag.push_data(data, ii, mode="full")', '            bag.push_data(data, 0, mode="full")', "min/max re-initialised on every block")
+M("c06-stats-divisor", "C06", B, "        nsamps_sel = (self.header.nsamples - start) if nsamps is None else nsamps\n        bag = ChannelStats(self.header.nchans, nsamps_sel)\n        for _, ii, data in self.read_plan(\n            gulp=gulp,\n            start=start,\n            nsamps=nsamps,\n            **plan_kwargs,\n        ):\n            bag.push_data(data, ii, mode=\"full\")",
+  "        nsamps_sel = (self.header.nsamples - start) if nsamps is None else nsamps\n        bag = ChannelStats(self.header.nchans, self.header.nsamples)\n        for _, ii, data in self.read_plan(\n            gulp=gulp,\n            start=start,\n            nsamps=nsamps,\n            **plan_kwargs,\n        ):\n            bag.push_data(data, ii, mode=\"full\")", "original F06d")
+M("c06-dedisp-kernel-delay", "C06", K, "            outarray[index + isamp] += inarray[nchans * (isamp + delays[ichan]) + ichan]", "            outarray[index + isamp] += inarray[nchans * (isamp + delays[nchans - 1 - ichan]) + ichan]")
+M("c06-m3-term", "C06", K, "    m3 += term * delta_n * (n - 2) - 3 * delta_n * m2", "    m3 += term * delta_n * (n - 2) + 3 * delta_n * m2")
+M("c06-dedisp-len", "C06", B, "        tim_len = nsamps_sel - max_delay\n", "        tim_len = self.header.nsamples - start - max_delay\n", "length ignores nsamps")
